@@ -237,6 +237,7 @@ def run_check(prop, tier, verif_seed, replay_file=None, budget_override=None):
     records.sort(key=lambda r: r["index"])
     wall_explore = time.time() - t_start
 
+    have_violations = any(r.get("violations") for r in records) or bool(corpus_viol)
     # ---- determinism self-test (other process, other hash seed, 1 worker) ----
     det = {"checked": 0, "mismatch": 0}
     ok_recs = [r for r in records if not r.get("violations") and not r.get("variant")]
@@ -262,8 +263,9 @@ def run_check(prop, tier, verif_seed, replay_file=None, budget_override=None):
             if r2 is None or r2.get("obs_digest") != r["obs_digest"] or r2.get("case_digest") != r["case_digest"]:
                 det["mismatch"] += 1
                 log(f"determinism mismatch at index {r['index']}: {r.get('obs_digest')} vs {r2 and r2.get('obs_digest')}")
-        if det["mismatch"]:
-            log(f"HARNESS-ERROR property={prop} determinism self-test mismatch ({det})")
+        if det["mismatch"] and not have_violations:
+            log(f"HARNESS-ERROR property={prop} determinism self-test mismatch ({det}) - the same scenario gave different "
+                "observations in another process; no violation was found that would explain it")
             return 2
 
     # ---- violations: known findings, minimisation, replay confirmation -------
